@@ -1,6 +1,5 @@
 import Ntrip.Proofs.SegmentRefine
 import Ntrip.Proofs.Normalise
-import Ntrip.Guards.Framing
 /-!
 # C12 — a frame corrupted in payload or CRC is discarded alone; its neighbours survive
 
@@ -58,8 +57,5 @@ def F1bad : Bytes := [0xD3, 0x00, 0x02, 0x3E, 0xD3] ++ crcBytes (crc24q [0xD3, 0
 example : Corrupted crc24q F1bad :=
   ⟨⟨F1, ⟨by decide, by decide +kernel, by decide +kernel, by decide +kernel, by decide +kernel⟩,
     by decide, by decide⟩, by decide +kernel⟩
-
-/-- Tie T1: guards and loop headers of the modelled code, regenerated from the source. -/
-theorem tie_guards_framing : type_of% Ntrip.Guards.framing := Ntrip.Guards.framing
 
 end Ntrip.C12
